@@ -54,7 +54,8 @@ def BOUNDS(tier):
 
 
 def configs(tier):
-    c = []
+    c = [{"kind": "route", "min": 1.0}, {"kind": "route", "min": 5.0},
+         {"kind": "route", "min": 2.0}]
     for b in ("hg19", "hg38"):
         for first in range(len(c06.OPS)):
             c.append({"genome": b, "first": first, "nops": 2, "maxsz": 2, "starts": 2,
@@ -153,7 +154,76 @@ def compare(gene, s1, s2):
     return probs
 
 
+def run_route(cfg):
+    """
+    The dump route of the real genotype(): the parameters given to the run must be back
+    in force before anything depends on them. With a symbolic average depth the accept /
+    reject decision of a run from the dump equals the decision of the original run with
+    the same min_avg_coverage (the dump reader resets that parameter to 2.0).
+    """
+    import genoharness
+    from symx import S
+    from aldy.common import AldyException
+
+    res = new_result(cfg)
+    eng = Engine(name="c17r")
+    avg = z3.Real("avg")
+    base = [avg >= 0, avg <= 100]
+    plan = {"cn": [["1", "1"]], "major": {0: [{"1": 2}]}, "minor": {(0, 0): 1}}
+    state = {}
+
+    def run():
+        out = {}
+        for kind in ("sam", "dump"):
+            h = genoharness.Harness(plan, lambda k, i: 1.0, avg_cov=S(avg), kind=kind)
+            try:
+                h.run(params={"min_avg_coverage": cfg["min"]})
+                out[kind] = "ok"
+            except AldyException:
+                out[kind] = "reject"
+        return out
+
+    for dec, pc, out in eng.explore(run, base):
+        good = out["sam"] == out["dump"]
+        st, mdl = eng.prove([], z3.BoolVal(good))
+        want = "reject" if eng.prove([], avg < cfg["min"])[0] == "unsat" else "ok"
+        ob(res, f"route/min_avg_coverage={cfg['min']}: a run from the dump accepts/rejects "
+                "exactly like the original run with the same parameter",
+           "holds" if good and out["dump"] == want else "sat")
+        if not (good and out["dump"] == want):
+            st, mdl = eng.satisfiable([])
+            av = float(symx.model_value(mdl, avg)) if mdl is not None else 3.0
+            res["violations"].append({
+                "what": f"average depth {av}, min_avg_coverage={cfg['min']}: original run "
+                        f"{out['sam']}, run from its dump {out['dump']}", "key": "dump-route",
+                "replay": {"kind": "route", "avg": av, "min": cfg["min"]}})
+    seen = {}
+    for v in res["violations"]:
+        seen.setdefault(v["key"], v)
+    res["violations"] = list(seen.values())
+    res["stats"] = dict(eng.stats)
+    return res
+
+
+def replay_route(o):
+    import genoharness
+    from aldy.common import AldyException
+
+    plan = {"cn": [["1", "1"]], "major": {0: [{"1": 2}]}, "minor": {(0, 0): 1}}
+    out = {}
+    for kind in ("sam", "dump"):
+        h = genoharness.Harness(plan, lambda k, i: 1.0, avg_cov=o["avg"], kind=kind)
+        try:
+            h.run(params={"min_avg_coverage": o["min"]})
+            out[kind] = "ok"
+        except AldyException:
+            out[kind] = "reject"
+    return out["sam"] != out["dump"], f"depth {o['avg']} min {o['min']}: {out}"
+
+
 def run_config(cfg):
+    if cfg.get("kind") == "route":
+        return run_route(cfg)
     res = new_result(cfg)
     gene = gengene.load("GA", cfg["genome"])
     eng = Engine(name="c17")
@@ -207,6 +277,8 @@ def run_config(cfg):
 
 
 def replay(o):
+    if o.get("kind") == "route":
+        return replay_route(o)
     gene = gengene.load("GA", o["genome"])
     tmp = tempfile.mkdtemp(prefix="c17_")
     try:
